@@ -813,8 +813,17 @@ impl StrideRounding for Bitvector {
         let diff = interval.start.try_to_i128().unwrap() - self.try_to_i128().unwrap();
         let diff = diff % interval.stride as i128;
         let diff = (diff + interval.stride as i128) % interval.stride as i128;
-        let diff = Bitvector::from_u64(diff as u64).into_resize_unsigned(interval.bytesize());
-        self.signed_add_overflow_checked(&diff)
+        // `diff` may exceed the largest positive signed value of the bitvector's width,
+        // so it has to be added as an integer and not as a signed bitvector.
+        let rounded = self.try_to_i128().unwrap() + diff;
+        if rounded > Bitvector::signed_max_value(self.width()).try_to_i128().unwrap() {
+            return None;
+        }
+        Some(
+            Bitvector::from_i64(rounded as i64)
+                .into_truncate(self.bytesize())
+                .unwrap(),
+        )
     }
 
     /// Round `self` down to the nearest value that adheres to the stride of `interval`.
@@ -826,8 +835,17 @@ impl StrideRounding for Bitvector {
         let diff = self.try_to_i128().unwrap() - interval.end.try_to_i128().unwrap();
         let diff = diff % interval.stride as i128;
         let diff = (diff + interval.stride as i128) % interval.stride as i128;
-        let diff = Bitvector::from_u64(diff as u64).into_resize_unsigned(interval.bytesize());
-        self.signed_sub_overflow_checked(&diff)
+        // `diff` may exceed the largest positive signed value of the bitvector's width,
+        // so it has to be subtracted as an integer and not as a signed bitvector.
+        let rounded = self.try_to_i128().unwrap() - diff;
+        if rounded < Bitvector::signed_min_value(self.width()).try_to_i128().unwrap() {
+            return None;
+        }
+        Some(
+            Bitvector::from_i64(rounded as i64)
+                .into_truncate(self.bytesize())
+                .unwrap(),
+        )
     }
 }
 
